@@ -979,6 +979,19 @@ def each(mk, name, options):
     return options
 
 
+def connected_path(tn, path):
+    """does every step of the linear path contract two tensors that share a label?"""
+    sets = [set(t.inds) for t in tn.tensor_map.values()]
+    for i, j in path:
+        i, j = sorted((i, j))
+        b = sets.pop(j)
+        a = sets.pop(i)
+        if not (a & b):
+            return False
+        sets.append(a ^ b)
+    return True
+
+
 class Watch:
     """callbacks of a compressed contraction: records every compression (sizes before / bond after)"""
 
@@ -1055,10 +1068,16 @@ def contract_compressed_all_paths(mk, geom, chi, opt):
                tc.TensorNetwork._compute_tree_gauges, tc.TensorNetwork._canonize_around_tids, tc.TensorNetwork._gauge_local_tids,
                tc.TensorNetwork._contract_between_tids, tc.tensor_compress_bond, tc.tensor_canonize_bond, tc.tensor_fuse_squeeze,
                tc.maybe_unwrap, decomp.compute_oblique_projectors)
+    if mk.sym and opt == "gauges-all":
+        return _numeric_only(mk, "gauge_all_simple iterates to a numerical tolerance")
     tn, out = graph_tn(mk, geom, kind="real", numkind="cplx")
     want = exact(tn, out)
     n = tn.num_tensors
     paths = list(all_paths(n))
+    if mk.sym:
+        # symbolic run: every path that never forms an outer product (the certificates of outer-product
+        # intermediates with sqrt-absorbed singular values are out of reach); the numeric run takes ALL paths
+        paths = [p for p in paths if connected_path(tn, p)]
     if n > 4:
         paths = paths[:: max(1, len(paths) // 12)][:12]
     kw = dict(CC_OPTS[opt])
